@@ -49,6 +49,7 @@ type Response struct {
 	Died       bool           `json:"died,omitempty"`
 	Log        string         `json:"log,omitempty"`
 	KeyText    string         `json:"keytext,omitempty"`
+	Conf       string         `json:"conf,omitempty"` // conformance observations: must be equal when the same path is run against the bound implementation
 }
 
 // ExecFunc is the engine-specific worker body.
@@ -253,9 +254,15 @@ type Finding struct {
 	Replay    string `json:"replay,omitempty"`
 }
 
+// LoadFindings reads /verif/known_findings.json ($VERIF_FINDINGS names another file: used only to try a candidate
+// list without editing the real one).
 func LoadFindings() []Finding {
 	var fs []Finding
-	b, err := os.ReadFile(filepath.Join(VerifDir, "known_findings.json"))
+	path := filepath.Join(VerifDir, "known_findings.json")
+	if p := os.Getenv("VERIF_FINDINGS"); p != "" {
+		path = p
+	}
+	b, err := os.ReadFile(path)
 	if err != nil {
 		return nil
 	}
